@@ -717,3 +717,46 @@ func ruleD6d(c *Ctx) {
 	}
 	R.Check(okAll, "D6d", at, p.Position(f.Pos()), "size comparison dominates the membership walks", "Set.Equal walks the receiver's members without first rejecting a different size: a proper subset compares equal to its superset")
 }
+
+// ---------------------------------------------------------------- Q8
+
+// ruleQ8: what is linked into a list or stack was born a member (ok = true,
+// from NewElement / makeElem / NewItem / makeItem); a bare literal is a
+// placeholder or sentinel and is never handed to Append.
+func ruleQ8(c *Ctx) {
+	R := c.R
+	p := c.P
+	R.Rule("Q8", "the argument of Element.Append / Item.Append / uncheckedAppend is never a node built in place by a composite literal without ok: true (such a node is a placeholder: appendable() rejects it unless something sets ok later, which a JSON null does not)", 3)
+	n := 0
+	for _, f := range p.FuncsIn("dt") {
+		info := f.Info()
+		walkNoLit(f.Body, func(x ast.Node) bool {
+			call, ok := x.(*ast.CallExpr)
+			if !ok || len(call.Args) != 1 {
+				return true
+			}
+			switch callName(info, call) {
+			case "dt.(*Element).Append", "dt.(*Item).Append", "dt.(*Element).uncheckedAppend":
+			default:
+				return true
+			}
+			n++
+			arg := ast.Unparen(resolveLocal(f, call.Args[0]))
+			bad := false
+			if ue, ok := arg.(*ast.UnaryExpr); ok && ue.Op == token.AND {
+				if cl, ok := ast.Unparen(ue.X).(*ast.CompositeLit); ok {
+					okTrue := false
+					for _, el := range cl.Elts {
+						if kv, ok := el.(*ast.KeyValueExpr); ok && exprStr(kv.Key) == "ok" && exprStr(kv.Value) == "true" {
+							okTrue = true
+						}
+					}
+					bad = !okTrue
+				}
+			}
+			R.Check(!bad, "Q8", fmt.Sprintf("%s/append(%s)#%d", f.Name, exprStr(call.Args[0]), n), p.Position(call.Pos()), "argument is not a bare placeholder literal",
+				fmt.Sprintf("%s appends %s, which it built as a bare literal (ok = false): unless a later step happens to set ok the append is silently refused — a JSON null entry disappears from the decoded list/stack", f.Name, exprStr(call.Args[0])))
+			return true
+		})
+	}
+}
